@@ -319,6 +319,11 @@ func init() {
 					x, label := allNamesValue(caseGen(c, true, idx), idx)
 					roundTrip(c, "json", vmodel.JSON, jsonPairs, x, label, nil)
 				}},
+				{Name: "constructed", N: len(allConstructed), Exhaustive: true, Run: func(c *Ctx, idx int) {
+					cv := allConstructed[idx]
+					c.Count("constructed", 1)
+					singleVariants(c, "json", vmodel.JSON, jsonPairs, cv.Make(), "constructed "+cv.Label, nil)
+				}},
 				{Name: "bare-embedded", N: len(bareCases), Exhaustive: true, Run: func(c *Ctx, idx int) {
 					bc := bareCases[idx]
 					inner, host := caseGen(c, true, idx).BuildBare(bc, false)
